@@ -7,6 +7,9 @@
 #include <map>
 #include <vector>
 
+#include <sys/mman.h>
+#include <cstdlib>
+
 #include "xtl/xiterator_base.hpp"
 #include "xtl/xdynamic_bitset.hpp"
 #include "xtl/xoptional_sequence.hpp"
@@ -170,15 +173,18 @@ namespace
         using ext_type = xtl::xrandom_access_iterator_ext<Mini, int&>;
         using base::operator[];
         using ext_type::operator[];
-        int* p = nullptr;
+        // a range-checked iterator: its primitives refuse offsets that leave [lo, hi], so a derived operator that calls
+        // them with a wrapped-around or otherwise wrong value is noticed even when modular arithmetic would hide it
+        int* p = nullptr; int* lo = nullptr; int* hi = nullptr;
         Mini() = default;
-        explicit Mini(int* q) : p(q) {}
-        Mini& operator++() { ++p; return *this; }
-        Mini& operator--() { --p; return *this; }
-        Mini& operator+=(std::ptrdiff_t n) { p += n; return *this; }
-        Mini& operator-=(std::ptrdiff_t n) { p -= n; return *this; }
-        Mini& operator+=(std::size_t n) { p += n; return *this; }
-        Mini& operator-=(std::size_t n) { p -= n; return *this; }
+        Mini(int* q, int* l, int* h) : p(q), lo(l), hi(h) {}
+        [[noreturn]] static void out_of_range(const char* what) { sim::fail("model", "C12/primitive-argument/minimal_with_ext/primitive", std::string("a derived operator called the primitive ") + what + " with an offset that leaves the container's range"); }
+        Mini& operator++() { if (p == hi) out_of_range("operator++"); ++p; return *this; }
+        Mini& operator--() { if (p == lo) out_of_range("operator--"); --p; return *this; }
+        Mini& operator+=(std::ptrdiff_t n) { if (n > hi - p || n < lo - p) out_of_range("operator+=(difference_type)"); p += n; return *this; }
+        Mini& operator-=(std::ptrdiff_t n) { if (n > p - lo || n < p - hi) out_of_range("operator-=(difference_type)"); p -= n; return *this; }
+        Mini& operator+=(std::size_t n) { if (n > static_cast<std::size_t>(hi - p)) out_of_range("operator+=(size_type)"); p += n; return *this; }
+        Mini& operator-=(std::size_t n) { if (n > static_cast<std::size_t>(p - lo)) out_of_range("operator-=(size_type)"); p -= n; return *this; }
         std::ptrdiff_t operator-(const Mini& o) const { return p - o.p; }
         int& operator*() const { return *p; }
         int* operator->() const { return p; }
@@ -191,13 +197,85 @@ namespace
         using It = Mini;
         std::vector<int> v; size_t n = 0;
         void build(size_t size, Rng&) { n = size; v.resize(n + 1); for (size_t i = 0; i < v.size(); ++i) v[i] = static_cast<int>(i * 13 + 5); }
-        It at(size_t p) { return Mini(v.data() + p); }
+        It at(size_t p) { return Mini(v.data() + p, v.data(), v.data() + n); }
         It begin() { return at(0); } It end() { return at(n); }
         long value(const It& it) { return *it; }
         long index(const It& it, std::ptrdiff_t d) { return it[d]; }
         long model(size_t p) { return v[p]; }
         void write(It& it, size_t, long val) { *it = static_cast<int>(val); }
     };
+
+    // Kinds whose positions or steps do not fit 32 bits.  Their memory is never written (calloc / PROT_READ zero pages),
+    // they skip full traversals, and walker positions are drawn from both ends and the 2^31 boundary.
+    template <class K> struct is_huge : std::false_type {};
+
+    struct HugeBitsetKind
+    {
+        static constexpr bool ra = true, lt = true, mut = false, ext = false;
+        using C = xtl::xdynamic_bitset_view<uint64_t>;
+        using It = C::const_iterator;
+        static constexpr size_t N = (size_t(1) << 31) + 192;
+        uint64_t* mem = nullptr;
+        std::unique_ptr<C> c;
+        size_t n = 0;
+        ~HugeBitsetKind() { c.reset(); std::free(mem); }
+        void build(size_t, Rng&)
+        {
+            if (!mem) { mem = static_cast<uint64_t*>(std::calloc(N / 64 + 1, 8)); if (!mem) std::abort(); }
+            n = N;
+            c.reset(new C(mem, n));
+        }
+        It at(size_t p) { return It(*c, p); }
+        It begin() { return at(0); } It end() { return at(n); }
+        long value(const It& it) { return static_cast<bool>(*it) ? 1 : 0; }
+        long index(const It& it, std::ptrdiff_t d) { return static_cast<bool>(it[d]) ? 1 : 0; }
+        long model(size_t) { return 0; }
+        void write(It&, size_t, long) {}
+        size_t pick_pos(uint64_t raw) const
+        {
+            size_t off = static_cast<size_t>((raw >> 3) % 64);
+            switch (raw & 7)
+            {
+            case 0: return off;
+            case 1: return n - off;
+            case 2: return (size_t(1) << 31) - off;
+            case 3: return (size_t(1) << 31) + off;
+            case 4: return 0;
+            case 5: return n;
+            default: return static_cast<size_t>((raw * 0x9e3779b97f4a7c15ULL) % (n + 1));
+            }
+        }
+    };
+    template <> struct is_huge<HugeBitsetKind> : std::true_type {};
+
+    struct HugeSteppingKind
+    {
+        static constexpr bool ra = true, lt = true, mut = false, ext = false;
+        using It = xtl::xstepping_iterator<const char*>;
+        static constexpr std::ptrdiff_t STEP = (std::ptrdiff_t(1) << 31) + 7;
+        const char* mem = nullptr;
+        size_t n = 0, bytes = 0;
+        ~HugeSteppingKind() { if (mem) munmap(const_cast<char*>(mem), bytes); }
+        void build(size_t, Rng&)
+        {
+            n = 2;
+            if (!mem)
+            {
+                bytes = static_cast<size_t>(STEP) * n + 4096;
+                void* q = mmap(nullptr, bytes, PROT_READ, MAP_PRIVATE | MAP_ANONYMOUS | MAP_NORESERVE, -1, 0);
+                if (q == MAP_FAILED) std::abort();
+                mem = static_cast<const char*>(q);
+            }
+        }
+        It at(size_t p) { return xtl::make_stepping_iterator(mem + static_cast<std::ptrdiff_t>(p) * STEP, STEP); }
+        It begin() { return at(0); } It end() { return at(n); }
+        long value(const It& it) { return *it; }
+        long index(const It& it, std::ptrdiff_t d) { return it[d]; }
+        long model(size_t) { return 0; }
+        void write(It&, size_t, long) {}
+        size_t pick_pos(uint64_t raw) const { return static_cast<size_t>(raw % (n + 1)); }
+    };
+    template <> struct is_huge<HugeSteppingKind> : std::true_type {};
 
     // ---- the walk ------------------------------------------------------------------------------------
     template <class K>
@@ -242,8 +320,11 @@ namespace
             run.dig(pos[0]); run.dig(pos[1]);
         }
         // offset keeping pos + off inside [0, n]
+        size_t pick_pos(uint64_t raw, std::true_type) const { return k.pick_pos(raw); }
+        size_t pick_pos(uint64_t raw, std::false_type) const { return static_cast<size_t>(raw % (k.n + 1)); }
         std::ptrdiff_t offset(uint64_t raw, size_t p) const
         {
+            if (is_huge<K>::value) return static_cast<std::ptrdiff_t>(pick_pos(raw, is_huge<K>())) - static_cast<std::ptrdiff_t>(p);
             unsigned sel = raw & 7; raw >>= 3;
             std::ptrdiff_t lo = -static_cast<std::ptrdiff_t>(p), hi = static_cast<std::ptrdiff_t>(k.n - p);
             if (sel == 0) return 0;
@@ -349,6 +430,7 @@ namespace
             case OP_compare: compare_op(w, std::integral_constant<bool, K::lt>()); break;
             case OP_deref: if (p < k.n) { if (k.value(a) != k.model(p)) viol("deref", "*it reads " + std::to_string(k.value(a)) + ", expected " + std::to_string(k.model(p))); } break;
             case OP_traverse:
+                if (is_huge<K>::value) { stats().add("skipped.traversal_of_huge_container"); break; }
                 {
                     size_t c = 0;
                     for (It x = k.begin(); x != k.end(); ++x, ++c) { if (c >= k.n || k.value(x) != k.model(c)) viol("traverse", "forward traversal differs at " + std::to_string(c)); }
@@ -368,7 +450,8 @@ namespace
                     size_t n = static_cast<size_t>(st.a % 41);
                     if ((st.a >> 8) % 5 == 0) n = 0;
                     k.build(n, env);
-                    pos[0] = static_cast<size_t>(st.b % (k.n + 1)); pos[1] = static_cast<size_t>(st.c % (k.n + 1));
+                    pos[0] = pick_pos(st.b, is_huge<K>()); pos[1] = pick_pos(st.c, is_huge<K>());
+                    if (is_huge<K>::value) SIM_PROBE("positions_beyond_2^31");
                     it[0] = k.at(pos[0]); it[1] = k.at(pos[1]);
                     ++run.changing;
                     SIM_PROBE("container_resized_walkers_reseated");
@@ -440,4 +523,6 @@ namespace
     IT_CFG(map_keys, MapKind<false>);
     IT_CFG(map_values, MapKind<true>);
     IT_CFG(minimal_with_ext, MiniKind);
+    IT_CFG(bitset_view_of_more_than_2e31_bits, HugeBitsetKind);
+    IT_CFG(stepping_by_more_than_2e31, HugeSteppingKind);
 }
